@@ -342,7 +342,28 @@ def rf_sites(fn, structure, scope, sites):
 
 # ----------------------------------------------------------------------------- failing sub-expressions and positions
 
+# celpy built-ins that turn a failing argument into an ordinary value (measured on celpy 0.3.0): `string(x)` gives the
+# error's text (also for a map/list holding the error), `type(x)` its class, `x == x` true, `size({"a": x})` 1,
+# `has({"a": x}.a)` false, `||` / `&&` absorb by CEL's definition, a conditional does not look at the branch not taken.
+# The evaluation succeeds by celpy's own account — which is the oracle parameter of the model — and no koreo-owned code
+# is involved, so the checks do not alarm on them (stream "absorbed": outcome unconstrained, counted).
+def absorbing_exprs(root):
+    m, d = f"{root}.missing", "1/0"
+    return {
+        "celpy:string": f"string({m})", "celpy:string+": f'"x: " + string(100 / 0)', "celpy:string(map)": f'string({{"a": {d}}})',
+        "celpy:string(list)": f"string([{d}])", "celpy:string(fn)": 'string(split("a", ""))',
+        "celpy:type": f"type({d}) == int", "celpy:eq-self": f"{d} == {d}", "celpy:size(map)": f'size({{"a": {d}}})',
+        "celpy:has": f'has({{"a": {d}}}.a)', "celpy:or": f"true || ({d} == 1)", "celpy:and": f"false && ({d} == 1)",
+        "celpy:untaken": f"true ? 1 : {d}",
+    }
+
+
+ABSORBING = [False]      # set while the "absorbed" stream plants
+
+
 def failing_exprs(root):
+    if ABSORBING[0]:
+        return absorbing_exprs(root)
     base = {
         "div0": "1/0", "missing": f"{root}.missing", "missing2": f"{root}.missing.deeper", "wrongtype": "size(1)",
         "addmix": '"a" + 1', "index": f"{root}.items[9]", "split": 'split("a", "")', "to_ref": "to_ref({})",
@@ -493,9 +514,25 @@ def healthy_vf(r, overlay_for_rf=False):
     return spec
 
 
+def plant_message(r, predicates, root):
+    """a failing message or delay on a false assertion — the only false one, or the 2nd / 3rd false one behind
+    assertions whose own members evaluate (every false assertion's members count, not only the deciding one's)"""
+    fname, f = r.choice(sorted(failing_exprs(root).items()))
+    member = r.choice(["message", "message", "delay"])
+    bad = ({"assert": "=false", "skip": {"message": "=" + f}} if member == "message"
+           else {"assert": "=1 == 2", "retry": {"message": "wait", "delay": 5, "note": "=" + f}})
+    ahead = r.choice([0, 1, 1, 2])
+    at = r.randint(0, len(predicates))
+    block = [{"assert": "=false", r.choice(["skip", "depSkip"]): {"message": f"earlier {i}"}} for i in range(ahead)] + [bad]
+    predicates[at:at] = block
+    return f"{member}-of-false-assertion#{ahead + 1}", fname
+
+
 def plant_vf(r, spec, root="inputs"):
     """plant a failing sub-expression at a random site of a ValueFunction spec; returns a description"""
     sites = [s for s in ("preconditions", "locals", "return") if s in spec]
+    if ABSORBING[0]:        # an absorbed failure in a predicate lets the predicate decide: C13's subject, not planted here
+        sites = [s for s in sites if s != "preconditions"]
     site = r.choice(sites)
     if site == "preconditions":
         which = r.choice(["assert", "message"])
@@ -503,9 +540,7 @@ def plant_vf(r, spec, root="inputs"):
             expr, pos, fail = plant_scalar(r, root)
             spec["preconditions"].insert(r.randint(0, 1), {"assert": expr, "skip": {"message": "m"}})
         else:
-            fname, f = r.choice(sorted(failing_exprs(root).items()))
-            spec["preconditions"].insert(r.randint(0, 1), {"assert": "=false", "skip": {"message": "=" + f}})
-            pos, fail = "message", fname
+            pos, fail = plant_message(r, spec["preconditions"], root)
         return {"site": site, "pos": pos, "fail": fail}
     target = spec[site]
     if site == "return" and r.random() < 0.4:
@@ -588,6 +623,11 @@ def plant_rf(r, spec, aux):
         if "postconditions" in spec:
             sites.append("postconditions")
         sites.append("return")
+    if ABSORBING[0]:
+        # (an absorbed failure in the object's name/namespace or template name changes which object is meant)
+        sites = [s for s in sites if s not in ("preconditions", "postconditions", "apiConfig", "templateName")]
+        if not sites:
+            return {"site": None, "pos": None, "fail": "celpy:nothing-to-plant"}
     site = r.choice(sites)
     d = {"site": site if isinstance(site, str) else f"{site[0]}[{site[1]}]"}
     if site == "apiConfig":
@@ -598,8 +638,11 @@ def plant_rf(r, spec, aux):
         spec["resourceTemplateRef"]["name"] = expr
     elif site in ("preconditions", "postconditions"):
         root = "inputs" if site == "preconditions" else "resource"
-        expr, d["pos"], d["fail"] = plant_scalar(r, root)
-        spec[site].insert(r.randint(0, 1), {"assert": expr, "skip": {"message": "m"}})
+        if r.random() < 0.5:
+            expr, d["pos"], d["fail"] = plant_scalar(r, root)
+            spec[site].insert(r.randint(0, 1), {"assert": expr, "skip": {"message": "m"}})
+        else:
+            d["pos"], d["fail"] = plant_message(r, spec[site], root)
     elif site in ("locals", "return"):
         d["pos"], d["fail"] = plant_in_map(r, spec[site], "inputs", block=spec[site])
     elif site == "resource":
@@ -684,6 +727,8 @@ def plant_wf(r, fns, wf, aux):
     for s in ("skipIf", "forEach", "state", "refSwitch"):
         if s in step:
             sites.append(s)
+    if ABSORBING[0]:    # an absorbed failure among the forEach items changes which objects the iterations manage
+        sites = [s for s in sites if s != "forEach"]
     site = r.choice(sites)
     d = {"site": f"step[{k}].{site}"}
     if site == "inputs":
@@ -1026,22 +1071,24 @@ def complaints_one(case, obs):
     if "escaped" in obs:
         return f"an exception escaped the reconcile call: {obs['escaped']}"
     bad = [(n, a) for n, a in obs["events"] if is_bad(a)]
+    # the only exemption: the planted failure sits directly inside one of celpy's own absorbing built-ins
+    celpy_absorbs = case.get("stream") == "absorbed" and str(case.get("plant", {}).get("fail", "")).startswith("celpy:")
     for i, created in obs.get("failed_inside", {}).items():
         name, answer = obs["events"][int(i)]
-        if not is_bad(answer):
+        if not is_bad(answer) and not celpy_absorbs:
             return (f"a sub-expression failed to evaluate inside {name} ({created} error object(s) constructed) but the "
                     f"value of the expression carries no error: the failure was swallowed (value {json.dumps(answer)[:200]})")
     for req in obs.get("requests", []):
         if req["err"]:
             return f"a {req['method']} body contains an error object"
-        if req.get("errtext"):
+        if req.get("errtext") and not celpy_absorbs:
             return f"a {req['method']} body contains the text of an evaluation error in place of data: {req['errtext']!r}"
     out = obs["outcome"]
     if out["c"] == "ok" and out.get("err"):
         return "the returned value contains an error object"
-    if out["c"] == "ok" and out.get("errtext"):
+    if out["c"] == "ok" and out.get("errtext") and not celpy_absorbs:
         return f"the returned value contains the text of an evaluation error in place of data: {out['errtext']!r}"
-    if obs.get("state_errtext"):
+    if obs.get("state_errtext") and not celpy_absorbs:
         return f"the published state contains the text of an evaluation error in place of data: {obs['state_errtext']!r}"
     if case["kind"] in ("vf", "rf"):
         if bad:
@@ -1177,25 +1224,33 @@ def compare(case, obs, ans):
 
 def gen_case(r, rec):
     kind = r.choice(["vf", "vf", "rf", "rf", "rf", "wf", "wf"])
-    stream = r.choice(["real", "real", "injected", "healthy"] if r.random() < 0.9 else ["two"])
+    stream = r.choice(["real", "real", "injected", "healthy"] if r.random() < 0.9 else ["two", "absorbed"])
     case = {"kind": kind, "stream": stream}
+    ABSORBING[0] = stream == "absorbed"
+    try:
+        return _gen_case(r, rec, kind, stream, case)
+    finally:
+        ABSORBING[0] = False
+
+
+def _gen_case(r, rec, kind, stream, case):
     if kind == "vf":
         case["spec"] = healthy_vf(r)
-        if stream in ("real", "two"):
+        if stream in ("real", "two", "absorbed"):
             case["plant"] = plant_vf(r, case["spec"])
             if stream == "two":
                 case["plant2"] = plant_vf(r, case["spec"])
         candidates = ["vf." + s for s in ("preconditions", "locals", "return") if s in case["spec"]]
     elif kind == "rf":
         case["spec"], case["aux"] = healthy_rf(r)
-        if stream in ("real", "two"):
+        if stream in ("real", "two", "absorbed"):
             case["plant"] = plant_rf(r, case["spec"], case["aux"])
             if stream == "two":
                 case["plant2"] = plant_rf(r, case["spec"], case["aux"])
         candidates = None
     else:
         case["fns"], case["wf"], case["aux"] = healthy_wf(r)
-        if stream in ("real", "two"):
+        if stream in ("real", "two", "absorbed"):
             case["plant"] = plant_wf(r, case["fns"], case["wf"], case["aux"])
             if stream == "two":
                 case["plant2"] = plant_wf(r, case["fns"], case["wf"], case["aux"])
@@ -1403,6 +1458,9 @@ def run(tier: str) -> int:
             ck.count("celpy:" + ("raised" if a == "raised" else "embedded"))
         if bad and obs.get("outcome", {}).get("c") == "permFail":
             ck.count("permfail-location-attr:" + ("set" if obs["outcome"].get("loc") else "empty (path in message)"))
+        if case["stream"] == "absorbed":
+            swallowed = any(not is_bad(obs["events"][int(i)][1]) for i in obs.get("failed_inside", {}))
+            ck.count("celpy-built-in absorbed the failure" if swallowed else "celpy-built-in: failure not absorbed/reached")
         if "plant" in case:
             ck.count(f"position:{case['plant'].get('pos')}")
             ck.count(f"failure:{case['plant'].get('fail')}")
